@@ -575,17 +575,89 @@ def check(run: common.Run):
             "tests are abstracted to literal-truthy / literal-falsy / unknown and iterables to empty / non-empty / "
             "unknown: the literal_value classification itself belongs to C15"],
     )
-    run.assumptions += ["context managers are assumed not to swallow exceptions (tool's design; known finding F16-2)",
-                        "has_side_effect / delete_pointless_statements: see coverage.effects"]
+    run.assumptions += [
+        "context managers are assumed not to swallow exceptions (tool's design; known finding F16-2)",
+        "operators, attribute reads, subscripts and iteration of unknown objects are assumed free of side effects "
+        "(tool's design); `_` is a throw-away name (documented convention of has_side_effect)",
+        "evaluation errors of expressions (TypeError, NameError ...) are outside the property",
+        "T16.4 holds under the guard `plain` (callees identifiable by name), T16.5 for distinct definition names: "
+        "known findings F16-12, F16-13",
+        "the whole-program claim 'deleting the statement preserves behaviour' is checked by the end-to-end execution "
+        "oracle on enumerated inputs, not proved"]
     from . import c16_effects
-    c16_effects.check(run, mods, wd, rnd)
+    eff = c16_effects.check(run, mods, wd, rnd)
+    cov = run.coverage
+    cov["flow_evaluations"] = cov["evaluations"]
+    cov["evaluations"] = (cov["evaluations"] + eff.get("hse_evaluations", 0) + eff.get("module_cases", 0)
+                          + eff.get("semantics_cases", 0) + eff.get("e2e_cases", 0))
+    cov["distinct_nontrivial"] = cov["distinct_nontrivial"] + eff.get("hse_no_side_effect_cases", 0)
+    cov["rule"] += (" EFFECTS: core.has_side_effect vs EffectModel.hse on 46 sub-terms x single-hole expression / "
+                    "statement contexts (complete) + two-level contexts (sharded in quick) + seeded random terms, each "
+                    "under two whitelists; parsing.safe_callable_names and the deletion flags of "
+                    "delete_pointless_statements vs the model on generated modules; EffectModel.exec validated against "
+                    "CPython (logging stubs, all scripts of draws); before/after execution oracle. Non-trivial "
+                    "(effects) = judged free of side effects; distinct by source text.")
+    cov["samples"] = cov["samples"] + eff.get("samples", [])
+    cov["trusted_base"] = cov["trusted_base"] + [
+        "EffectModel.eval/exec (+ benign) is a definition (reference semantics); validated on every run against "
+        "CPython: observed (trace, outcome) behaviours over all scripts must be among the model's over all oracles",
+        "the split of a function body at its first blocking statement inside safe_callable_names is computed by the "
+        "harness with the real core.is_blocking and handed to the model",
+        "regenerated coq/generated/Tables.v (SAFE_CALLABLES) -- fail-closed dumper"]
+    cov["unmodelled"] = ["try / match / async statements (has_side_effect answers True for them)",
+                         "the traversal order of parsing.iter_bodies_recursive (only which bodies are visited matters)",
+                         "other consumers of is_blocking / has_side_effect: remove_redundant_else, swap_if_else, "
+                         "breakout_common_code_in_ifs, remove_dead_ifs, literal_value's precondition"]
 
 
 def replay(path: str) -> int:
+    """re-run one recorded case on the real code and re-evaluate the property's oracle"""
     data = json.loads(Path(path).read_text())
     mods = common.import_impl()
-    print(json.dumps({k: data[k] for k in data if k in ("kind", "explanation", "site", "stmt", "observed")}, indent=1))
+    keys = ("kind", "explanation", "site", "stmt", "case", "after", "observed", "only_before", "only_after", "impl",
+            "model", "whitelist", "fn", "file", "broken")
+    print(json.dumps({k: data[k] for k in keys if k in data}, indent=1))
+    rc = 0
+    if data.get("kind", "").startswith("proof"):
+        wd = common.workdir(PID + "-replay")
+        ok, blog = common.coq_build()
+        pr = common.check_props(PID, wd) if ok else {"ok": False, "log": blog}
+        print("proof obligations now:", "ok" if pr["ok"] else "BROKEN\n" + pr.get("log", "")[-2000:])
+        return 0 if pr["ok"] else 1
     if "stmt" in data:
-        node = ast.parse(data["stmt"]).body[0]
-        print("is_blocking now:", mods["core"].is_blocking(node))
-    return 0
+        src = data["stmt"]
+        try:
+            node = ast.parse(src).body[0]
+            with common.quiet():
+                print("is_blocking now:", bool(mods["core"].is_blocking(node)))
+        except SyntaxError:
+            pass
+        if "def f():" in src:
+            with common.quiet():
+                out = mods["fixes"].delete_unreachable_code(src)
+            b1, b2 = behaviours(src, bool(data.get("suppress"))), behaviours(out, bool(data.get("suppress")))
+            same = b1 == b2
+            print("delete_unreachable_code now gives:\n" + out)
+            print("behaviours before/after", "agree" if same else "DIFFER: " + repr(sorted(map(repr, (b1 or set()) ^ (b2 or set())))[:4]))
+            rc = 0 if same else 1
+    if "case" in data:
+        from . import c16_effects
+        src = data["case"]
+        if src.endswith("after()\n"):
+            src = src[: -len("after()\n")]
+        try:
+            tree = ast.parse(src)
+            with common.quiet():
+                flags = [bool(mods["core"].has_side_effect(n, frozenset(mods["constants"].SAFE_CALLABLES) | {"g"}))
+                         for n in tree.body]
+            print("has_side_effect now (per top-level statement, whitelist SAFE_CALLABLES + g):", flags)
+        except SyntaxError as exc:
+            print("not parsable:", exc)
+        r = c16_effects.search_failing_input(mods, src)
+        if r:
+            print("delete_pointless_statements changes the observable behaviour:")
+            print(json.dumps({k: r[k] for k in ("after", "only_before", "only_after", "sigs")}, indent=1))
+            rc = 1
+        else:
+            print("delete_pointless_statements: no observable difference found now")
+    return rc
